@@ -42,7 +42,7 @@ ASSUMPTIONS = [
 PROTO = re.compile(r"^[a-zA-Z]{0,64}:?//")
 _DECODABLE = {G.puny(l): l for l in G.IDN_LABELS}   # ACE labels that Python's IDNA codec decodes (curated, checked at import)
 CTRL = re.compile(r"[\x00-\x1f\x7f-\x9f]")
-MISTAKES = re.compile(r"&amp(?:%3B|;)", re.I)
+MISTAKES = re.compile(r"&(?:a|%[46]1)(?:m|%[46]d)(?:p|%[57]0)(?:%3B|;)", re.I)   # '&amp;' under every escape spelling
 
 
 def parse(full):
